@@ -5,7 +5,11 @@ from typing import Any, Callable, Dict, List, Mapping, Type
 from spec_classes.errors import FrozenInstanceError
 from spec_classes.methods.base import AttrMethodDescriptor
 from spec_classes.types import MISSING, Attr
-from spec_classes.utils.mutation import mutate_value, protect_via_deepcopy
+from spec_classes.utils.mutation import (
+    _unfrozen,
+    mutate_value,
+    protect_via_deepcopy,
+)
 from spec_classes.utils.type_checking import (
     check_type,
     type_instantiate,
@@ -132,8 +136,10 @@ class CollectionAttrMutator(metaclass=ABCMeta):
             else:
                 # The key is not a constructor argument (`init=False`): build
                 # the element first, then give it its key.
+                # (It is still ours to complete, also if its class is frozen.)
                 key_value, new_item = new_item, item_spec_type()
-                setattr(new_item, key, key_value)
+                with _unfrozen(new_item):
+                    setattr(new_item, key, key_value)
         return new_item
 
     def _mutate_collection(
